@@ -13,7 +13,7 @@ def pregen(ctx):
             raise RuntimeError("c16 --trees failed: " + trees.stderr[-400:])
         gen = subprocess.run([os.path.join(lean, ".lake", "build", "bin", "drv_c16"), "--gen"], input=trees.stdout,
                              capture_output=True, text=True, timeout=600)
-        if gen.returncode != 0 or gen.stdout.count("\ndef ") != 63:
+        if gen.returncode != 0 or gen.stdout.count("\ndef ") != 84:
             raise RuntimeError("tree translation failed: " + (gen.stderr or gen.stdout)[-400:])
         path = os.path.join(lean, "MahfModel", "Generated", "Templates.lean")
         old = open(path).read() if os.path.exists(path) else ""
